@@ -69,6 +69,7 @@ type Path struct {
 	symbols []*smt.Term
 	symByName map[string]*smt.Term
 	nameCtr map[string]int
+	extra   map[string]uint64 // harness-level choices (verifrt.Choose), part of every model
 	decided map[int64]bool // outcome of branch terms already decided on this path
 	hasDecided map[int64]bool
 	instrs  int64
@@ -285,6 +286,9 @@ func (p *Path) model() (map[string]uint64, bool) {
 	m := map[string]uint64{}
 	for _, s := range p.symbols {
 		m[strings.Trim(s.Name, "|")] = vals[s]
+	}
+	for k, v := range p.extra {
+		m[k] = v
 	}
 	return m, true
 }
